@@ -623,6 +623,24 @@ func (p *pkgInfo) emitFacts(o *out) {
 	o.line("%s", strings.Join(rows, ",\n"))
 	o.line("]")
 
+	// exported package-level functions that take a FiniteSequence: the ones that must traverse to
+	// the end and therefore must not be handed an unbounded sequence (C17)
+	var finiteOnly []string
+	for _, k := range p.order {
+		fd := p.funcs[k]
+		if fd.Recv != nil || !ast.IsExported(fd.Name.Name) || fd.Type.Params == nil {
+			continue
+		}
+		for _, f := range fd.Type.Params.List {
+			if id, ok := f.Type.(*ast.Ident); ok && id.Name == "FiniteSequence" {
+				finiteOnly = append(finiteOnly, fd.Name.Name)
+				break
+			}
+		}
+	}
+	sort.Strings(finiteOnly)
+	o.line("def finiteOnlyFunctions : List String := %s", leanStrList(finiteOnly))
+
 	// exported functions and methods with their signatures
 	var api []string
 	for _, k := range p.order {
